@@ -4,6 +4,13 @@ C25 — Rounding follows the declared rounding modes.
 Property theorems only. Model: `checkedRound` & co. in `RadixModel/Model/Decimal.lean`
 (transcription of `checked_round` in decimal.rs / precise_decimal.rs and of
 `ResolvedRoundingStrategy::from_mode` in rounding_mode.rs).
+
+FULL STATEMENT (proved below at full strength, for both types, all seven modes, every admissible
+number of places and every value of the type):
+  checked_round(places, mode) x = some r  ⇔  r is THE multiple of 10^(SCALE-places) prescribed by `mode`
+                                             (`IsRounded`, which has at most one solution) and r is representable;
+  checked_round(places, mode) x = none    ⇔  that prescribed value exists but is not representable;
+  it panics exactly when `places ∉ [0, SCALE]` (documented); values already at that precision are unchanged.
 -/
 import RadixModel.Model.Decimal
 import RadixModel.Lemmas.Decimal
@@ -47,5 +54,160 @@ theorem table_agrees :
 
 theorem scales_agree :
     RoundingTable.DEC_SCALE = Ty.dec.scale ∧ RoundingTable.PDEC_SCALE = Ty.pdec.scale := ⟨rfl, rfl⟩
+
+/-! ## checked_round -/
+
+/-- a tie between 2 and 3 goes to the even neighbour 2 -/
+example : IsRounded .toNearestMidpointToEven (10 ^ 18) (25 * 10 ^ 17) (2 * 10 ^ 18) := by
+  refine ⟨⟨2, by norm_num⟩, by norm_num, by norm_num, fun _ => ⟨1, by norm_num⟩⟩
+
+example : checkedRound .dec 0 .toNearestMidpointToEven (25 * 10 ^ 17) = .val (2 * 10 ^ 18) := by decide
+example : checkedRound .dec 0 .toNearestMidpointAwayFromZero (-25 * 10 ^ 17) = .val (-3 * 10 ^ 18) := by decide
+example : checkedRound .dec 0 .toPositiveInfinity Ty.dec.max = .none := by decide
+
+/-- the rounding granularity `10^(SCALE - places)` in subunits -/
+def unitOf (t : Ty) (places : Int) : Int := pow10 (t.scale - places.toNat)
+
+/-- admissible `decimal_places` -/
+def ValidPlaces (t : Ty) (places : Int) : Prop := 0 ≤ places ∧ places ≤ (t.scale : Int)
+
+example : ValidPlaces .dec 0 ∧ ValidPlaces .dec 18 ∧ ValidPlaces .pdec 36 ∧ ¬ ValidPlaces .dec 19 := by
+  unfold ValidPlaces; decide
+
+theorem unitOf_pos (t : Ty) (p : Int) (hp : ValidPlaces t p) : 0 < unitOf t p :=
+  (pow10_facts t (t.scale - p.toNat) (by omega)).1
+
+/-- The granularity really is `10^(SCALE - places)`. -/
+theorem unitOf_eq (t : Ty) (p : Nat) (hp : p ≤ t.scale) : unitOf t (p : Int) = (10 : Int) ^ (t.scale - p) := by
+  unfold unitOf; rw [pow10_eq, Int.toNat_natCast]
+
+/-- Key fact: for admissible places, `checked_round` returns the prescribed value when it is
+representable and `none` otherwise — there is a (unique) prescribed value `r`. -/
+theorem round_eq_prescribed (t : Ty) (p : Int) (hp : ValidPlaces t p) (mode : Mode) (x : Int)
+    (hx : t.InRange x) :
+    ∃ r, IsRounded mode (unitOf t p) x r ∧
+      checkedRound t p mode x = Outcome.ofOption (chk t.bits r) := by
+  obtain ⟨hd, _, _, hpar⟩ := pow10_facts t (t.scale - p.toNat) (by omega)
+  rw [checkedRound_eq_core t p hp.1 hp.2 mode x hx]
+  exact roundCore_pick t mode _ x hd hpar hx
+
+/-- `checked_round` panics exactly for an inadmissible number of decimal places (as documented);
+in particular none of its internal `expect`s / panicking operators can fire. -/
+theorem round_panics_iff (t : Ty) (p : Int) (mode : Mode) (x : Int) (hx : t.InRange x) :
+    checkedRound t p mode x = .panic ↔ ¬ ValidPlaces t p := by
+  constructor
+  · intro h hp
+    obtain ⟨r, _, he⟩ := round_eq_prescribed t p hp mode x hx
+    rw [he] at h
+    cases hc : chk t.bits r <;> rw [hc] at h <;> simp [Outcome.ofOption] at h
+  · intro hp
+    unfold checkedRound
+    rw [if_pos]
+    unfold ValidPlaces at hp
+    omega
+
+/-- SOUNDNESS: a returned value is the one prescribed by the mode, and is representable. -/
+theorem round_sound (t : Ty) (p : Int) (hp : ValidPlaces t p) (mode : Mode) (x r : Int)
+    (hx : t.InRange x) (h : checkedRound t p mode x = .val r) :
+    IsRounded mode (unitOf t p) x r ∧ t.InRange r := by
+  obtain ⟨r0, hr0, he⟩ := round_eq_prescribed t p hp mode x hx
+  rw [he] at h
+  cases hc : chk t.bits r0 with
+  | none => rw [hc] at h; simp [Outcome.ofOption] at h
+  | some v =>
+    rw [hc] at h
+    simp only [Outcome.ofOption, Outcome.val.injEq] at h
+    obtain ⟨hin, hv⟩ := chk_eq_some.mp hc
+    subst hv; subst h
+    exact ⟨hr0, hin⟩
+
+/-- OVERFLOW is reported only when the prescribed value is not representable. -/
+theorem round_none (t : Ty) (p : Int) (hp : ValidPlaces t p) (mode : Mode) (x : Int)
+    (hx : t.InRange x) (h : checkedRound t p mode x = .none) :
+    ∀ r, IsRounded mode (unitOf t p) x r → ¬ t.InRange r := by
+  obtain ⟨r0, hr0, he⟩ := round_eq_prescribed t p hp mode x hx
+  intro r hr
+  have : r = r0 := isRounded_unique mode _ x r r0 (unitOf_pos t p hp) hr hr0
+  subst this
+  rw [he] at h
+  cases hc : chk t.bits r with
+  | none => exact chk_eq_none.mp hc
+  | some v => rw [hc] at h; simp [Outcome.ofOption] at h
+
+/-- COMPLETENESS: whenever the prescribed value is representable it is returned. -/
+theorem round_complete (t : Ty) (p : Int) (hp : ValidPlaces t p) (mode : Mode) (x r : Int)
+    (hx : t.InRange x) (hr : IsRounded mode (unitOf t p) x r) (hin : t.InRange r) :
+    checkedRound t p mode x = .val r := by
+  obtain ⟨r0, hr0, he⟩ := round_eq_prescribed t p hp mode x hx
+  have : r = r0 := isRounded_unique mode _ x r r0 (unitOf_pos t p hp) hr hr0
+  subst this
+  rw [he, chk_of_inBits hin]; rfl
+
+/-- The prescribed value always exists and is unique, so `IsRounded` defines the rounding function. -/
+theorem prescribed_exists_unique (t : Ty) (p : Int) (hp : ValidPlaces t p) (mode : Mode) (x : Int)
+    (hx : t.InRange x) : ∃ r, IsRounded mode (unitOf t p) x r ∧
+      ∀ r', IsRounded mode (unitOf t p) x r' → r' = r := by
+  obtain ⟨r0, hr0, _⟩ := round_eq_prescribed t p hp mode x hx
+  exact ⟨r0, hr0, fun r' hr' => isRounded_unique mode _ x r' r0 (unitOf_pos t p hp) hr' hr0⟩
+
+/-- The only outcomes are a value, `None`, or the documented panic. -/
+theorem round_outcomes (t : Ty) (p : Int) (mode : Mode) (x : Int) (hx : t.InRange x) :
+    (∃ r, checkedRound t p mode x = .val r) ∨ checkedRound t p mode x = .none ∨
+      checkedRound t p mode x = .panic := by
+  by_cases hp : ValidPlaces t p
+  · obtain ⟨r, _, he⟩ := round_eq_prescribed t p hp mode x hx
+    rw [he]
+    cases chk t.bits r <;> simp [Outcome.ofOption]
+  · exact Or.inr (Or.inr ((round_panics_iff t p mode x hx).mpr hp))
+
+/-- Values already at the requested precision are returned unchanged, in every mode. -/
+theorem round_idempotent_on_multiples (t : Ty) (p : Int) (hp : ValidPlaces t p) (mode : Mode)
+    (x : Int) (hx : t.InRange x) (hm : unitOf t p ∣ x) : checkedRound t p mode x = .val x := by
+  apply round_complete t p hp mode x x hx _ hx
+  have hd := unitOf_pos t p hp
+  refine ⟨hm, by simpa using hd, ?_⟩
+  cases mode <;> simp <;> omega
+
+/-- Rounding a result again (same places, any mode) changes nothing. -/
+theorem round_round (t : Ty) (p : Int) (hp : ValidPlaces t p) (mode mode' : Mode) (x r : Int)
+    (hx : t.InRange x) (h : checkedRound t p mode x = .val r) :
+    checkedRound t p mode' r = .val r := by
+  obtain ⟨hr, hin⟩ := round_sound t p hp mode x r hx h
+  exact round_idempotent_on_multiples t p hp mode' r hin hr.1
+
+/-! ## floor / ceiling / for_withdrawal -/
+
+/-- `checked_floor`: the returned value is the largest integer (multiple of ONE) `≤ x`. -/
+theorem floor_sound (t : Ty) (x r : Int) (hx : t.InRange x) (h : checkedFloor t x = .val r) :
+    t.one ∣ r ∧ r ≤ x ∧ x < r + t.one ∧ t.InRange r := by
+  have hp : ValidPlaces t 0 := ⟨le_refl _, by omega⟩
+  obtain ⟨⟨h1, h2, h3⟩, hin⟩ := round_sound t 0 hp .toNegativeInfinity x r hx h
+  have hu : unitOf t 0 = t.one := rfl
+  rw [hu] at h1 h2
+  rw [abs_lt] at h2
+  exact ⟨h1, h3, by omega, hin⟩
+
+/-- `checked_ceiling`: the returned value is the smallest integer `≥ x`. -/
+theorem ceiling_sound (t : Ty) (x r : Int) (hx : t.InRange x) (h : checkedCeiling t x = .val r) :
+    t.one ∣ r ∧ x ≤ r ∧ r < x + t.one ∧ t.InRange r := by
+  have hp : ValidPlaces t 0 := ⟨le_refl _, by omega⟩
+  obtain ⟨⟨h1, h2, h3⟩, hin⟩ := round_sound t 0 hp .toPositiveInfinity x r hx h
+  have hu : unitOf t 0 = t.one := rfl
+  rw [hu] at h1 h2
+  rw [abs_lt] at h2
+  exact ⟨h1, h3, by omega, hin⟩
+
+/-- `checked_floor` / `checked_ceiling` never panic. -/
+theorem floor_ceiling_no_panic (t : Ty) (x : Int) (hx : t.InRange x) :
+    checkedFloor t x ≠ .panic ∧ checkedCeiling t x ≠ .panic := by
+  have hp : ValidPlaces t 0 := ⟨le_refl _, by omega⟩
+  exact ⟨fun h => (round_panics_iff t 0 _ x hx).mp h hp, fun h => (round_panics_iff t 0 _ x hx).mp h hp⟩
+
+/-- `for_withdrawal`: `Exact` returns the amount unchanged; `Rounded(mode)` is `checked_round` to the
+resource divisibility (so all the theorems above apply for divisibility ≤ 18). -/
+theorem forWithdrawal_spec (x : Int) (dv : Nat) :
+    forWithdrawal x dv none = .val x ∧
+    ∀ mode, forWithdrawal x dv (some mode) = checkedRound .dec (dv : Int) mode x :=
+  ⟨rfl, fun _ => rfl⟩
 
 end Radix.Dec
